@@ -50,6 +50,9 @@ def run(chk):
             for names in rng.sample(subsets, 4):
                 arg0 = (",".join(names) if names else "-").encode()
                 wcases.append(("hwrite", [arg0] + ch)); meta.append((data, names))
+                if len(ch) > 1:
+                    # the same chunks delivered through io.WriteString / fmt.Fprint as well as Write
+                    wcases.append(("hwrites", [arg0] + ch)); meta.append((data, names))
                 sizes = [str(len(c) or 1).encode() for c in ch][:8]
                 wcases.append(("hread", [arg0, data] + sizes)); meta.append((data, names))
                 if not arg0.endswith(b"!") or True:
@@ -69,7 +72,7 @@ def run(chk):
                 k = sizes[i % len(sizes)]; chs.append(data[pos:pos + k]); pos += k; i += 1
             mcases.append(("hread", [c[1][0].split(b"@")[0].replace(b"!", b"")] + chs))
         else:
-            mcases.append((c[0], [c[1][0].replace(b"!", b"")] + c[1][1:]))
+            mcases.append(("hwrite", [c[1][0].replace(b"!", b"")] + c[1][1:]))
     model = [complete(m) for m in chk.run_model(mcases)]
     chk.compare("hashing-writers-and-readers", mcases, impl, model, nontrivial=lambda c, r: r.startswith("ok"), kernel=False)
     for c, i, (data, names) in zip(wcases, impl, meta):
